@@ -126,7 +126,7 @@ def stepWith (fix : Bool) (s : St) (ts : List String) : St × String :=
     match (parseNat? id).bind (findTx s) with
     | some tx =>
       let r := commitTx s.pool tx
-      ({ s with pool := { r.1 with chain := r.1.chain ++ [tx.id] } }, s!"ok {showSet r.2}")
+      ({ s with pool := r.1 }, s!"ok {showSet r.2}")
     | none => (s, "bad-op")
   | ["hdr", hs] =>
     match parseNatList? hs with
